@@ -567,6 +567,53 @@ func c17Waiters(c *Ctx, r *Report) {
 							}
 						}
 					}
+					// or the same through a small function of the package that polls the channel it is given
+					if !found {
+						for _, b2 := range fn.Blocks {
+							for _, in2 := range b2.Instrs {
+								hc, ok := in2.(*ssa.Call)
+								if !ok || blockReaches(b2, sel.Block()) || !blockReaches(sel.Block(), b2) {
+									continue
+								}
+								h := hc.Call.StaticCallee()
+								if h == nil || h.Pkg != fn.Pkg || h.Blocks == nil {
+									continue
+								}
+								pi := -1
+								for ai, a := range hc.Call.Args {
+									if a == ec || sameValue(a, ec) {
+										pi = ai
+									}
+									if ct, ok := a.(*ssa.ChangeType); ok && (ct.X == ec || sameValue(ct.X, ec)) {
+										pi = ai
+									}
+								}
+								if pi < 0 || pi >= len(h.Params) {
+									continue
+								}
+								polls := false
+								for _, hb := range h.Blocks {
+									for _, hi := range hb.Instrs {
+										if s3, ok := hi.(*ssa.Select); ok && !s3.Blocking && selectRecvsOn(s3, h.Params[pi]) && selectValueReachesReturn(h, s3) {
+											polls = true
+										}
+									}
+								}
+								if !polls {
+									continue
+								}
+								for _, b3 := range fn.Blocks {
+									if ret, ok := b3.Instrs[len(b3.Instrs)-1].(*ssa.Return); ok {
+										for _, res := range ret.Results {
+											if FlowsFrom(res, hc, 0) {
+												found = true
+											}
+										}
+									}
+								}
+							}
+						}
+					}
 					r.Check(found, "R17.3", key, c.Rel(sel.Pos()), "non-blocking receive after the wait loop whose value flows to the return",
 						fmt.Sprintf("%s waits on done next to error channel %s but never drains that channel after the loop: when both are ready, select may pick done and the error is lost (exit status 0)", SSAName(fn), chanDesc(ec)))
 				}
